@@ -297,4 +297,108 @@ theorem fittestWhy_model (weq : K → K → Bool) (hweq : ∀ a, weq a a = true)
 
 end KindB
 
+/-! ### every generation of a run -/
+
+/-- what C10 needs of a population entering an epoch — an invariant of `nextEpoch` (`nextEpoch_champInv`): the C02
+    allocation and species-id invariants, no reservation of champion clones, the C01 pool invariant (which contains
+    "references resolve") -/
+structure ChampInv (p : Pop W) : Prop where
+  uid : C02.UidInv p
+  spid : C02.SpIdInv p
+  sc : ScZero p
+  pool : C01.PoolOk p.reg (C01.genomesOfPop p)
+
+theorem refsOk_of_pool (p : Pop W) (h : C01.PoolOk p.reg (C01.genomesOfPop p)) : RefsOkPop p := by
+  intro s hs x hx
+  have f := h x.genome (C01.mem_genomesOfPop.mpr ⟨s, hs, x, hx, rfl⟩)
+  exact ⟨f.wft.wf.traitRefs, f.wft.wf.endpoints, (by rw [f.nomod]; intro m hm; cases hm), (by rw [f.nomod]; intro m hm; cases hm)⟩
+
+/-- the invariant is re-established by every epoch (C02 `nextEpoch_popInv`, C01 `nextEpoch_closed`, newborns carry no
+    reservation) -/
+theorem nextEpoch_champInv (o : EpochOpts W) (gen : Int) (p p' : Pop W) (rs rs' : List Nat) (hinv : ChampInv p)
+    (h : nextEpoch o gen p rs = .ok (p', rs')) : ChampInv p' := by
+  obtain ⟨_, hu', hs'⟩ := C02.nextEpoch_popInv o gen p p' rs rs' hinv.uid hinv.spid h
+  have hpool := C01.nextEpoch_closed [] o gen p p' rs rs' (by simpa using hinv.pool) h
+  refine ⟨hu', hs', ?_, by simpa using hpool⟩
+  unfold nextEpoch at h
+  split at h
+  · cases h
+  · rename_i p1 ex rs1 hprep
+    split at h
+    · cases h
+    · rename_i p2 rs2 hrep
+      simp only [Except.ok.injEq, Prod.mk.injEq] at h
+      obtain ⟨rfl, _⟩ := h
+      have hu1 := (C02.prepare_uidInv o p p1 ex rs rs1 hinv.spid.nodup hinv.uid hprep).1
+      exact reproduce_finalize_allZ o gen p1 p2 ex rs1 rs2 hu1 hrep
+
+/-- what an evaluation between two epochs may do: assign fitness values and the like (`C02.SameShape`), touch no genome,
+    not the registry, and reserve no champion clones -/
+def EvalKeeps (q q' : Pop W) : Prop :=
+  C02.SameShape q q' ∧ (∀ g ∈ C01.genomesOfPop q', g ∈ C01.genomesOfPop q) ∧ q'.reg = q.reg ∧ (ScZero q → ScZero q')
+
+theorem champInv_eval (q q' : Pop W) (he : EvalKeeps q q') (h : ChampInv q) : ChampInv q' := by
+  obtain ⟨hsh, hg, hreg, hsc⟩ := he
+  obtain ⟨hu', hs'⟩ := C02.sameShape_inv q q' hsh h.uid h.spid
+  exact ⟨hu', hs', hsc h.sc, by rw [hreg]; exact h.pool.subset hg⟩
+
+/-- one epoch from `q` with stream `rs` to `q'` keeps the champion of every sizeable species (the statement of
+    `nextEpoch_keeps_champion`) -/
+def KeepsChampions (o : EpochOpts W) (q : Pop W) (rs : List Nat) (q' : Pop W) : Prop :=
+  ∀ p1 ex rs1, prepareForReproduction o q rs = .ok ((p1, ex), rs1) →
+    ∀ s ∈ p1.species, s.expectedOffspring > 5 → ∃ champ, s.orgs.head? = some champ ∧
+      ∃ s' ∈ q'.species, ∃ x ∈ s'.orgs, x.uid ∈ q'.organisms ∧ IsCopy champ x
+
+/-- the epochs `C02.runEpochs` performs: (evaluated population entering the epoch, stream, population returned) -/
+def runSteps (o : EpochOpts W) : List (Pop W → Pop W) → Int → Pop W → List Nat → List (Pop W × List Nat × Pop W)
+  | [], _, _, _ => []
+  | ev :: evs, gen, p, rs =>
+    match nextEpoch o gen (ev p) rs with
+    | .error _ => []
+    | .ok (p', rs') => (ev p, rs, p') :: runSteps o evs (gen + 1) p' rs'
+
+/-- **C10 over whole runs.**  Starting from a population that satisfies the invariant, in EVERY generation of a run of
+    any length — evaluate, turn over, evaluate, turn over, … with arbitrary evaluations that only assign fitness values —
+    the champion of every species whose quota exceeds five is preserved unmodified into the next generation; the
+    invariant holds for every population entering an epoch and for the final one, which (C02 `runEpochs_inv`) again
+    holds exactly `PopSize` organisms partitioned into non-empty species. -/
+theorem runEpochs_keeps_champions (o : EpochOpts W) (evs : List (Pop W → Pop W)) (gen : Int) (p p' : Pop W) (rs rs' : List Nat)
+    (hev : ∀ ev ∈ evs, ∀ q, EvalKeeps q (ev q)) (hinv : ChampInv p)
+    (h : C02.runEpochs o evs gen p rs = .ok (p', rs')) :
+    ChampInv p' ∧ (runSteps o evs gen p rs).length = evs.length ∧
+    (∀ st ∈ runSteps o evs gen p rs, ChampInv st.1 ∧ KeepsChampions o st.1 st.2.1 st.2.2) ∧
+    (evs ≠ [] → p'.organisms.length = o.popSize ∧ p'.organisms.Nodup ∧ p'.organisms = C02.orgUids p'.species ∧
+      ∀ s ∈ p'.species, s.orgs ≠ []) := by
+  have hinvC02 := C02.runEpochs_inv o evs gen p p' rs rs' (fun ev he q => (hev ev he q).1) hinv.uid hinv.spid h
+  refine ⟨?_, ?_, ?_, fun hne => by obtain ⟨a1, a2, a3, a4, _⟩ := hinvC02.2.2.2 hne; exact ⟨a1, a2, a3, a4⟩⟩
+  all_goals
+    induction evs generalizing gen p rs with
+    | nil =>
+      simp only [C02.runEpochs, Except.ok.injEq, Prod.mk.injEq] at h
+      obtain ⟨rfl, _⟩ := h
+      first
+        | exact hinv
+        | rfl
+        | (intro st hst; cases hst)
+    | cons ev evs ih =>
+      simp only [C02.runEpochs] at h
+      split at h
+      · cases h
+      · rename_i q1 rs1 h1
+        have hinv0 := champInv_eval p (ev p) (hev ev (by simp) p) hinv
+        have hinv1 := nextEpoch_champInv o gen (ev p) q1 rs rs1 hinv0 h1
+        have hinvC02' := C02.runEpochs_inv o evs (gen + 1) q1 p' rs1 rs' (fun e he q => (hev e (by simp [he]) q).1) hinv1.uid hinv1.spid h
+        have ih' := ih (gen + 1) q1 rs1 (fun e he => hev e (by simp [he])) hinv1 h hinvC02'
+        first
+          | exact ih'
+          | (simp only [runSteps, h1, List.length_cons]; rw [ih'])
+          | (intro st hst
+             simp only [runSteps, h1, List.mem_cons] at hst
+             rcases hst with rfl | hst
+             · refine ⟨hinv0, ?_⟩
+               intro p1 ex rs1' hprep
+               exact nextEpoch_keeps_champion o gen (ev p) q1 p1 ex rs rs1' rs1 hinv0.uid hinv0.spid.nodup hinv0.sc
+                 (refsOk_of_pool _ hinv0.pool) hprep h1
+             · exact ih' st hst)
+
 end GoNeat.C10
